@@ -31,6 +31,9 @@ TABLE = {
  "C07": (True, "runtime differential monitoring: byte comparison with an independently written RFC 8554 signer + independent verifier + reference tool",
          "every signature released on the C01 grid is compared byte for byte with the model signer run on the same key bytes and message (first differing field named), checked against the RFC length formula, verified by the model and (SHA-256/32) the hash-sigs tool; strict Appendix-B parameters are applied separately so that the recorded ls deviation (known finding) stays visible without masking anything else",
          TRUST + "; the upper-level randomizer rule and the 55-byte PRNG block for n<32 are pinned to the tree under test", "DESIGN.md 5 (C07)"),
+ "C09": (True, "metamorphic runtime monitoring across processes, threads, histories and entry points (byte equality with a fresh-process baseline)",
+         "results for a set of (hash, parameters, seed, counter, message) inputs are computed in a fresh process with a scrubbed environment and re-computed in a second process with a hostile environment, twice on the same thread, after unrelated / failing / panicking operations, concurrently on all worker threads (an atomic active-call table records which call kinds actually overlapped; no overlap = inconclusive), through SigningKey vs the byte-level function, with valid aux, and over complete lifetimes with a key object kept in memory vs reloaded before every signature; any byte difference is a violation",
+         TRUST, "DESIGN.md 5 (C09)"),
  "C10": (True, "metamorphic runtime monitoring (with aux vs without aux) + layout comparison with the model and the reference tool",
          "for every key of the workload the aux-less keygen/sign results are the oracle; keygen and sign are repeated with thousands of hostile buffers (every length, every truncation, every single-bit corruption of small valid buffers, level-word replacements, garbage, other-seed buffers incl. MAC-cut and zero-padded, buffers set up by sign) and any difference, error, panic or write beyond the used length is a violation; fresh buffers must hold the model's hash-sigs layout, byte-identical to the tool's .aux file where the two level selections coincide, and the tool must be able to sign with the library's aux file",
          TRUST + "; buffers MAC-valid for the same seed but another parameter list are legitimate cache contents by the property's own rule and are not generated", "DESIGN.md 5 (C10)"),
@@ -43,6 +46,12 @@ TABLE = {
  "C13": (True, "exhaustive execution of the real counter arithmetic through hooks over all key shapes, with the reference tool as witness",
          "every list of 1..8 heights over {5,10,15,20,25} (thorough: also with the 4-leaf height) x boundary counters is pushed through the real CompressedUsedLeafsIndexes::to / increment / get_lifetime (hook accessors) and compared with u128 mixed-radix arithmetic, including sum(h)>=64 (no arithmetic failure, never exhausted early); leaf indices of library signatures and of hash-sigs tool signatures at the same edited counters are compared end to end",
          TRUST, "DESIGN.md 5 (C13)"),
+ "C14": (True, "differential runtime monitoring across build configurations (transcript equality with the default build)",
+         "the same worker source is compiled once per HBS_LMS_* configuration (levels, per-level maximum heights, per-level minimum Winternitz parameters, combinations; 13 in quick, 22 in thorough); for parameter lists inside the limits the transcript of keygen / lifetime / sign / successor / verify / aux / last-leaf wipe must equal the default build's byte for byte, lists just outside the limits must be refused with Err by keygen, get_lifetime and sign without any callback; a configuration that does not build or a worker that dies is a violation",
+         TRUST + "; 'within limits' as documented in the crate (length <= levels, h_i <= max height of level i, w_i >= min W of level i)", "DESIGN.md 5 (C14)"),
+ "C16": (True, "runtime memory inspection of real secret-bearing values after zeroize, drop and exhaustion",
+         "values of all five secret-bearing types are populated by the real derivation code for every hash and W, their secrets snapshotted; after zeroize() and after drop_in_place in a MaybeUninit slot the raw memory of the value (volatile byte reads) must not contain any 8-byte window of a secret and the secret fields must read zero; keys are exhausted through all signing entry points and the final key bytes scanned for the seed; a vacuity guard requires the scan to find the secrets in the live value; a missing Zeroize impl is detected at run time",
+         TRUST + "; move residue on the stack is out of scope by design", "DESIGN.md 5 (C16)"),
  "C08": (True, "runtime differential monitoring against an independent model and the reference tool",
          "differential runtime monitor: every keygen of a seeded workload over 6 hashes x W x heights x 1..8 levels x seed classes is compared byte for byte with an independent model and, for SHA-256/32, with the hash-sigs tool; child-tree derivation is observed through the embedded public keys of released signatures",
          TRUST, "DESIGN.md 5 (C08)"),
